@@ -303,6 +303,8 @@ def run_tasks(sc):
             warnings.simplefilter("ignore")
             sm = M()
             await sm.activate_initial_state()
+            for _ in range(sc.get("reactivate", 0)):
+                await sm.activate_initial_state()      # redundant activation of an active machine: nothing to do
         # the order in which events are put (by senders and by callbacks): observed on this engine object
         orig_put = sm._engine.put
 
@@ -371,7 +373,68 @@ def _is_subseq(a, b):
     return all(any(x == y for y in it) for x in a)
 
 
+def run_listener_probe(sc):
+    """thread A is inside a callback of event 1; thread B attaches a listener to the same machine
+    (add_listener is documented to be usable at any time) and sends event 2: B's event must wait until A's
+    callbacks are over - no overlap, both processed once, in put order"""
+    from statemachine import State, StateMachine
+    log = []
+    inside, release = threading.Event(), threading.Event()
+
+    class Obs:
+        def after_go(self, n):
+            log.append(("obs", n))
+
+    class M(StateMachine):
+        a = State(initial=True)
+        go = a.to.itself()
+
+        def before_go(self, n):
+            log.append(("B", n))
+            if n == 1:
+                inside.set()
+                release.wait(10)
+
+        def after_go(self, n):
+            log.append(("E", n))
+    with warnings.catch_warnings():
+        warnings.simplefilter("ignore")
+        sm = M()
+    errors = []
+
+    def a_():
+        try:
+            sm.send("go", n=1)
+        except Exception as e:  # noqa: BLE001
+            errors.append(repr(e))
+
+    def b_():
+        try:
+            if sc.get("attach", True):
+                sm.add_listener(Obs())
+            sm.send("go", n=2)
+        except Exception as e:  # noqa: BLE001
+            errors.append(repr(e))
+    ta = threading.Thread(target=a_, daemon=True)
+    ta.start()
+    inside.wait(5)
+    tb = threading.Thread(target=b_, daemon=True)
+    tb.start()
+    tb.join(2)                  # B only enqueues and returns (A holds the processing lock)
+    b_returned = not tb.is_alive()
+    mid = list(log)
+    release.set()
+    ta.join(5)
+    tb.join(5)
+    marks = [e for e in log if e[0] in ("B", "E")]
+    ok = (not errors and b_returned and [e for e in mid if e[0] in ("B", "E")] == [("B", 1)]
+          and marks == [("B", 1), ("E", 1), ("B", 2), ("E", 2)] and not sm._engine._external_queue)
+    return {"ok": ok, "log": [list(map(str, e)) for e in log], "errors": errors, "steps": []}
+
+
 def run_impl(sc):
+    if sc["kind"] == "listener_probe":
+        return run_listener_probe(sc)
     if sc["kind"] in ("threads", "threads_same"):
         return run_threads(sc)
     return run_tasks(sc)
@@ -385,6 +448,8 @@ def b(x):
 
 
 def coq_case(sc, obs):
+    if sc["kind"] == "listener_probe":
+        return "(mk6 true [] [] [] [] [])" if obs.get("ok") else "(mk6 true [] [] [((9, 9), 9)] [] [])"
     if sc["kind"] == "tasks":
         # asyncio: the interleaving is decided by the real event loop between gates; the model's claims
         # for Await granularity are checked directly on what happened
@@ -468,6 +533,7 @@ def generate(rng, tier):
         n = rng.randint(2, 4)
         plan = [rng.randint(1, 2) for _ in range(n)]
         t.append({"kind": "tasks", "plan": plan, "nested": rng.random() < 0.4, "same_events": rng.random() < 0.35,
+                  "reactivate": rng.choice([0, 0, 0, 1, 2]),
                   "schedule": [rng.randrange(6) for _ in range(rng.randint(2, 20))]})
     nref = 60 if tier == "quick" else 1200
     for _ in range(nref):
@@ -481,6 +547,9 @@ def generate(rng, tier):
                   "same_events": False, "cancel_at": rng.randint(0, 6),
                   "schedule": [rng.randrange(6) for _ in range(rng.randint(2, 20))]})
     scs += t
+    scs += [{"kind": "listener_probe", "plan": [1, 1], "schedule": [], "attach": True},
+            {"kind": "listener_probe", "plan": [1, 1], "schedule": [], "attach": False}]
+    parts.append(("threads: a listener attached (and an event sent) by another thread while a callback is running", 2))
     parts.append(("asyncio, 2-4 sender tasks x 1-2 events, callbacks awaiting gates resumed one at a time in random "
                   "schedule order", nt))
     parts.append(("asyncio, senders whose events are partly refused once the state has changed (the drain fails)", nref))
@@ -493,6 +562,8 @@ def nontrivial(sc, obs):
     """Non-trivial: (threads) some sender was preempted inside the dispatch code while another one ran
     >= 1 protocol step, i.e. the reconstructed step sequence switches threads at least twice;
     (asyncio) >= 2 tasks sent events."""
+    if sc["kind"] == "listener_probe":
+        return False
     if sc["kind"] == "tasks":
         return len(sc["plan"]) >= 2
     st = obs.get("steps", [])
